@@ -546,8 +546,15 @@ fn hex(b: &[u8]) -> String {
     s
 }
 
+/// NaN payloads and the sign of zero are not part of the value (-0.0 = 0.0 in SQL)
 fn fl(x: f64) -> String {
-    if x.is_nan() { "NaN".into() } else { format!("{x:?}") }
+    if x.is_nan() {
+        "NaN".into()
+    } else if x == 0.0 {
+        "0.0".into()
+    } else {
+        format!("{x:?}")
+    }
 }
 
 /// Render row `i` of `a` in a form that depends only on the logical value: string / binary encodings,
@@ -585,7 +592,7 @@ pub fn render_into(a: &dyn Array, i: usize, out: &mut String) {
         DataType::Float16 => out.push_str(&format!("f{}", fl(a.as_primitive::<Float16Type>().value(i).to_f64()))),
         DataType::Float32 => {
             let x = a.as_primitive::<Float32Type>().value(i);
-            out.push_str(&if x.is_nan() { "fNaN".to_string() } else { format!("f{x:?}") })
+            out.push_str(&if x.is_nan() { "fNaN".to_string() } else if x == 0.0 { "f0.0".to_string() } else { format!("f{x:?}") })
         }
         DataType::Float64 => out.push_str(&format!("f{}", fl(a.as_primitive::<Float64Type>().value(i)))),
         DataType::Decimal32(_, s) => out.push_str(&decimal_text(&a.as_primitive::<Decimal32Type>().value(i).to_string(), *s)),
